@@ -5,10 +5,10 @@ EXECUTING the real code on generated class shapes.
 A shape says where an `lcc.inject_fixture()` marker is written (class body, base class, grand-base, mixin, `__init__` of the
 class or of a base) x how the attribute is named (`conn`, `_conn`, `__conn` (mangled by Python), `__conn__`, explicit fixture
 name, empty explicit name) x what shadows it (nothing, a plain class attribute of the subclass, a plain instance attribute,
-a property), plus shapes with two markers (same fixture twice, distinct fixtures, names sorted differently from their
+a property), plus shapes with two markers (same fixture twice — both attributes are listed since fix D35 —, distinct fixtures, names sorted differently from their
 declaration order).  Every shape is rendered to source with the renderer of props/_decl.py, exec-ed, instantiated; the row
 is   (the attribute layers of the REAL instance: vars(obj), vars(C) for C in type(obj).__mro__   →   what the REAL
-`Suite._load_injected_fixtures(obj)` returned).  `Generated/C03TablesCheck.lean` proves `Inject.injectedOf` of every left side
+`Suite._load_injected_fixtures(obj)` returned).  `Generated/C03TablesCheck.lean` proves `SuiteObj.injectedOf` of every left side
 equals the right side (`decide`).  The extraction also asserts that `_decl.layers_of` (the harness' own computation of the
 layers from a description: name mangling + MRO) gives the same non-dunder layers as the real objects.
 """
@@ -145,14 +145,14 @@ def rows():
         if mine != theirs:
             raise C.InfraError("harness layers_of disagrees with the real class objects on shape %s:\n%r\n%r\n%s" % (label, mine, theirs, src))
         real = list(Suite._load_injected_fixtures(obj).items())
-        inj.append((lean_obj(layers), "[%s]" % ", ".join("(%s, %s)" % (lean_str(f), lean_str(a)) for f, a in real), "%s -> %r" % (label, real)))
+        inj.append((lean_obj(layers), "[%s]" % ", ".join("(%s, [%s])" % (lean_str(f), ", ".join(lean_str(a) for a in attrs)) for f, attrs in real), "%s -> %r" % (label, real)))
     # shapes the description language has no word for: properties (never looked into), a marker behind a property
     for label, src in SPECIALS:
         ns = {"lcc": lcc}
         D.exec_source(src, ns)
         obj = ns["S"]()
         real = list(Suite._load_injected_fixtures(obj).items())
-        inj.append((lean_obj(real_layers(obj)), "[%s]" % ", ".join("(%s, %s)" % (lean_str(f), lean_str(a)) for f, a in real), "%s -> %r" % (label, real)))
+        inj.append((lean_obj(real_layers(obj)), "[%s]" % ", ".join("(%s, [%s])" % (lean_str(f), ", ".join(lean_str(a) for a in attrs)) for f, attrs in real), "%s -> %r" % (label, real)))
     # hook discovery on the same kind of shapes: setup_suite in the class / a base / the mixin, with fixture parameters
     for where in ("body", "base", "grandbase", "mixin", "nowhere"):
         cls, bases = _shape("body", "conn", None, "none")
@@ -171,5 +171,5 @@ def rows():
 
 def tables(ctx):
     inj, hooks = rows()
-    return [C.Table("injectTable", "List (Obj × List (String × String))", inj, imports=["LccModel.Model.Inject"]),
-            C.Table("hookTable", "List ((Obj × String) × Option (List String))", hooks, imports=["LccModel.Model.Inject"])]
+    return [C.Table("injectTable", "List (Obj × List (String × List String))", inj, imports=["LccModel.Model.SuiteObject"]),
+            C.Table("hookTable", "List ((Obj × String) × Option (List String))", hooks, imports=["LccModel.Model.SuiteObject"])]
